@@ -579,10 +579,12 @@ def run_probes(unit, ctx, text, workdir):
         r = run_verus(path, extra=getattr(unit, 'VERUS_ARGS', ()))
         vr = (r['json'] or {}).get('verification-results')
         lines = t.split('\n')
-        if vr is None or vr.get('encountered-vir-error'):
+        hard = [d for d in r['diags'] if d.get('level') == 'error' and not d.get('message', '').startswith('aborting due')
+                and not any(k in d.get('message', '') for k in VERIFY_FAIL_MSGS)]
+        if vr is None or vr.get('encountered-vir-error') or hard:
             # prune clones that do not compile
             bad = set()
-            for d in r['diags']:
+            for d in (hard or r['diags']):
                 if d.get('level') != 'error':
                     continue
                 for s in d.get('spans', []):
